@@ -2,8 +2,8 @@
 
 The rules are stated over ROLES as far as the data flow below carries; the operands that remain after resolution ARE compared as text
 (see the last item).  Techniques (DESIGN 2b): R-C16-1, -2, -3, -6 are T1 structural (CFG reachability with cut branch edges, dominators,
-reaching definitions / origins); R-C16-4 is T2 (symbolic path enumeration of initialize_results_dict / save_results to append tables,
-event text parsed by regex) plus an AST pattern for get_results; R-C16-5 is T1 (must-pass / dominance for advance, duration test, continue)
+reaching definitions / origins); R-C16-4 is T3 (initialize_results_dict / save_results / get_results run by the in-house interpreter on a mock model,
+pandas replaced by sa/minipandas.py); R-C16-7 is T1 error discipline with a small table of library contracts; R-C16-5 is T1 (must-pass / dominance for advance, duration test, continue)
 plus T2+T3 for "timestep is an integer >= 1": the formula of TimeOptions.__setattr__ is extracted symbolically and then only evaluated on
 6 sample values (-7/2, 0, 2/5, 1, 79/10, 3600).
 
@@ -28,8 +28,7 @@ plus T2+T3 for "timestep is an integer >= 1": the formula of TimeOptions.__setat
 * what is still matched as TEXT after that: the OPERANDS of the literals -- R-C16-2 recognises the tolerance test by the regex
   for an attribute `self.<..tol..>` and `abs(` / `norm(`, `len(...)`, fsolve's `ier`, and the failure reports by four message substrings; R-C16-3
   compares the appended argument with `int(<clock>)`, the duplicate test with `<res>.time[-1]` and isinstance type names as unparsed text
-  and needs the clock attribute to be named sim_time; R-C16-5 needs the duration literal to end in `options.time.duration`; R-C16-4 uses
-  hard-coded key / family sets (not a direct comparison of the three functions); R-C16-6 reads format specs by regex on string constants.
+  and needs the clock attribute to be named sim_time; R-C16-5 needs the duration literal to end in `options.time.duration`; R-C16-6 reads format specs by regex on string constants.
 """
 import ast
 import re
@@ -56,9 +55,10 @@ EXPLANATION = (
     "ResultsStatus.error` and leaves the loop, never reaching store/save/append. R-C16-2: every return of solve/_solver_helper is a (SolverStatus, "
     "message, count) triple, `converged` only behind the tolerance test (regex on self.*tol*, abs/norm) or fsolve's ier == 1, exceptions and maxiter "
     "give `error` (message substrings), loops are range loops. R-C16-3: each save_results is followed by exactly one results.time.append(int(sim_time)) "
-    "or a raise, behind the duplicate-time test (text comparison). R-C16-4 (T2: symbolic path enumeration to append tables, event text parsed by regex; "
-    "get_results by AST pattern): families and keys of initialize_results_dict / save_results equal the module's hard-coded sets and each family "
-    "appends once per key per call. R-C16-5: the accepted path advances the clock by the hydraulic timestep before the duration test, every continue "
+    "or a raise, behind the duplicate-time test (text comparison). R-C16-4 (T3, one mock model with every element family, three saved steps): after initialize_results_dict, save_results per "
+    "step and get_results every node / link table has one column per element, one row per reported time and holds the values the elements had when saved. R-C16-7 "
+    "(T1): the handlers that report SolverStatus.error cover the failure signals of the external routine they guard (table of library contracts; catch-all around "
+    "the caller-supplied solver). R-C16-5: the accepted path advances the clock by the hydraulic timestep before the duration test, every continue "
     "is dominated by the trial increment and test (T1); the timestep formula of TimeOptions.__setattr__ is extracted (T2) and checked to be an integer "
     ">= 1 on 6 sample values only (T3). R-C16-6: no format spec on the possibly-None iteration count; report_timestep classified by the same isinstance "
     "types in set-up and loop; solve's loop variable pre-bound. Decides control-flow discipline, not finiteness of numbers.")
